@@ -19,7 +19,7 @@
    The fields [msgs] (messages placed in the write buffer, newest first) is a ghost log: no
    decision of the model reads it. *)
 From Coq Require Import List NArith Bool.
-From LTV Require Import Params_gen.
+From LTV.C05 Require Import ParamsGen.
 Import ListNotations.
 Local Open Scope N_scope.
 
